@@ -506,6 +506,10 @@ def lab_run(task, spec, args):
         ax = fig.add_subplot()
         ax.plot([0, 1], [0, 1])
         ax.set_title(value[1])
+        if fault_kind == 'unserializable':
+            # a figure that cannot be pickled (a tick formatter built from a local lambda): storing it fails, nothing becomes visible
+            from matplotlib.ticker import FuncFormatter
+            ax.xaxis.set_major_formatter(FuncFormatter(lambda v_, p_: f'{v_:.1f}'))
         return fig
     if kind == 'dir_link':
         data = task.get_data_object()
